@@ -80,6 +80,29 @@ Proof.
   rewrite (Hs _ Hi Ec). destruct (step s) as [s1|] eqn:Es; [|reflexivity].
   apply IH. eapply Hstep; eauto.
 Qed.
+Lemma iter_n_add j m s :
+  iter_n step (j + m) s = match iter_n step j s with Some sj => iter_n step m sj | None => None end.
+Proof.
+  revert s; induction j as [|j IH]; intros s; simpl; [reflexivity|].
+  destruct (step s) as [s1|]; [apply IH|reflexivity].
+Qed.
+
+Lemma iter_n_prefix K s sK j : iter_n step K s = Some sK -> j <= K ->
+  exists sj, iter_n step j s = Some sj /\ iter_n step (K - j) sj = Some sK.
+Proof.
+  intros H Hj. replace K with (j + (K - j)) in H by lia. rewrite iter_n_add in H.
+  destruct (iter_n step j s) as [sj|]; [|discriminate]. exists sj. split; [reflexivity|exact H].
+Qed.
+
+(* a property preserved by every successful step holds along the iterates *)
+Lemma iter_n_invariant (Inv : St -> Prop) :
+  (forall s s', Inv s -> step s = Some s' -> Inv s') ->
+  forall k s s', Inv s -> iter_n step k s = Some s' -> Inv s'.
+Proof.
+  intros Hstep k; induction k as [|k IH]; intros s s' Hs H; simpl in H.
+  - inversion H; subst; exact Hs.
+  - destruct (step s) as [s1|] eqn:Es; [|discriminate]. eapply IH; [|exact H]. eapply Hstep; eauto.
+Qed.
 End LoopFacts.
 
 (* ---------------- vectors over a field ---------------- *)
@@ -278,3 +301,971 @@ Proof.
 Qed.
 
 End VecFacts.
+
+(* ---------------- ordered fields: the few consequences the solver statements need ---------------- *)
+Section OrdFacts.
+Variable F : Type.
+Variables (zero one : F) (add mul sub : F -> F -> F) (opp : F -> F) (div : F -> F -> F) (inv : F -> F).
+Variable Fth : field_theory zero one add mul sub opp div inv (@eq F).
+Add Field Ffield3 : Fth.
+Variable le : F -> F -> Prop.
+Hypothesis le_refl : forall a, le a a.
+Hypothesis le_antisym : forall a c, le a c -> le c a -> a = c.
+Hypothesis le_trans : forall a c d, le a c -> le c d -> le a d.
+Hypothesis le_total : forall a c, le a c \/ le c a.
+Hypothesis le_add : forall a c d, le a c -> le (add a d) (add c d).
+Hypothesis le_mul : forall a c, le zero a -> le zero c -> le zero (mul a c).
+
+Notation "0" := zero.
+Notation "1" := one.
+Infix "+" := add.
+Infix "*" := mul.
+Infix "-" := sub.
+Infix "/" := div.
+Infix "<=" := le.
+Definition flt (a c : F) : Prop := a <= c /\ a <> c.
+Infix "<" := flt.
+
+Lemma opp_nonneg a : a <= 0 -> 0 <= opp a.
+Proof. intros H. apply (le_add _ _ (opp a)) in H. replace (a + opp a) with 0 in H by ring. replace (0 + opp a) with (opp a) in H by ring. exact H. Qed.
+
+Lemma sq_nonneg a : 0 <= a * a.
+Proof.
+  destruct (le_total 0 a) as [H|H]; [apply le_mul; exact H|].
+  replace (a * a) with (opp a * opp a) by ring. apply le_mul; apply opp_nonneg; exact H.
+Qed.
+
+Lemma add_nonneg a c : 0 <= a -> 0 <= c -> 0 <= a + c.
+Proof.
+  intros Ha Hc. apply le_trans with (0 + c); [replace (0 + c) with c by ring; exact Hc|]. apply le_add. exact Ha.
+Qed.
+
+Lemma one_nonneg : 0 <= 1.
+Proof. replace 1 with (1 * 1) by ring. apply sq_nonneg. Qed.
+
+Lemma lt_irrefl a : ~ a < a.
+Proof. intros [_ H]. apply H. reflexivity. Qed.
+Lemma le_lt_trans a c d : a <= c -> c < d -> a < d.
+Proof. intros H1 [H2 H3]. split; [eapply le_trans; eauto|]. intros ->. apply H3. apply le_antisym; assumption. Qed.
+Lemma lt_not_le a c : a < c -> ~ c <= a.
+Proof. intros [H1 H2] H3. apply H2. apply le_antisym; assumption. Qed.
+
+Lemma inv_nonneg c : 0 < c -> 0 <= inv c.
+Proof.
+  intros [Hc Hne]. destruct (le_total 0 (inv c)) as [H|H]; [exact H|exfalso].
+  assert (Hc0 : c <> 0) by (intros E; apply Hne; symmetry; exact E).
+  pose proof (le_mul _ _ Hc (opp_nonneg _ H)) as H1.
+  replace (c * opp (inv c)) with (opp 1) in H1 by (field; exact Hc0).
+  apply (le_add _ _ 1) in H1. replace (0 + 1) with 1 in H1 by ring. replace (opp 1 + 1) with 0 in H1 by ring.
+  apply (F_1_neq_0 Fth). apply le_antisym; [exact H1|exact one_nonneg].
+Qed.
+
+Lemma div_nonneg a c : 0 <= a -> 0 < c -> 0 <= a / c.
+Proof.
+  intros Ha Hc. assert (Hc0 : c <> 0) by (intros E; destruct Hc as [_ Hne]; apply Hne; symmetry; exact E).
+  replace (a / c) with (a * inv c) by (field; exact Hc0). apply le_mul; [exact Ha|apply inv_nonneg; exact Hc].
+Qed.
+
+Lemma sub_nonneg_le a q : 0 <= q -> a - q <= a.
+Proof.
+  intros H. apply (le_add _ _ (a - q)) in H. replace (0 + (a - q)) with (a - q) in H by ring.
+  replace (q + (a - q)) with a in H by ring. exact H.
+Qed.
+
+Notation inner := (inner F zero add mul).
+Lemma inner_self_nonneg v : 0 <= inner v v.
+Proof.
+  induction v as [|a v IH]; [apply le_refl|].
+  rewrite (inner_cons F zero one add mul sub opp div inv Fth). apply add_nonneg; [apply sq_nonneg|exact IH].
+Qed.
+End OrdFacts.
+
+(* ---------------- the solvers over a field, operator = abstract linear map ---------------- *)
+Section SolverFacts.
+Variable F : Type.
+Variables (zero one : F) (add mul sub : F -> F -> F) (opp : F -> F) (div : F -> F -> F) (inv : F -> F).
+Variable Fth : field_theory zero one add mul sub opp div inv (@eq F).
+Add Field Ffield2 : Fth.
+Variable tiny : F -> bool.
+Variables (eqb ltb : F -> F -> bool).
+Hypothesis eqb_spec : forall a c, eqb a c = true <-> a = c.
+
+Notation "0" := zero.
+Notation "1" := one.
+Infix "+" := add.
+Infix "*" := mul.
+Infix "-" := sub.
+Infix "/" := div.
+Notation axpy := (axpy F add mul).
+Notation vscale := (vscale F mul).
+Notation vsub := (vsub F sub).
+Notation inner := (inner F zero add mul).
+Notation norm2sq := (norm2sq F zero add mul tiny).
+Notation zeros n := (repeat zero n).
+Notation fdiv := (fdiv F zero div eqb).
+Notation sops := (seq_ops F zero add mul tiny).
+
+Variable n : nat.
+Variable mulA : list F -> list F.
+Variable residA : list F -> list F -> list F.
+Variable b : list F.
+Hypothesis Hb : length b = n.
+Hypothesis mulA_len : forall x, length x = n -> length (mulA x) = n.
+Hypothesis mulA_lin : forall x p a, length x = n -> length p = n ->
+  mulA (axpy x p a) = axpy (mulA x) (mulA p) a.
+Hypothesis residA_spec : forall x, length x = n -> residA x b = vsub b (mulA x).
+
+Lemma fdiv_some a c q : fdiv a c = Some q -> c <> 0 /\ q = a / c.
+Proof.
+  unfold KDefs.fdiv. destruct (eqb c 0) eqn:E; [discriminate|]. intros H; inversion H; subst.
+  split; [|reflexivity]. intros ->. assert (eqb 0 0 = true) by (apply eqb_spec; reflexivity). congruence.
+Qed.
+Lemma fdiv_zero a : fdiv a 0 = None.
+Proof. unfold KDefs.fdiv. replace (eqb 0 0) with true; [reflexivity|]. symmetry; apply eqb_spec; reflexivity. Qed.
+Lemma fdiv_nonzero a c : c <> 0 -> fdiv a c = Some (a / c).
+Proof. intros H. unfold KDefs.fdiv. destruct (eqb c 0) eqn:E; [|reflexivity]. apply eqb_spec in E. contradiction. Qed.
+
+Lemma residA_len x : length x = n -> length (residA x b) = n.
+Proof. intros H. rewrite residA_spec by exact H. rewrite (vsub_length F sub); [exact Hb|]. rewrite mulA_len by exact H. exact Hb. Qed.
+
+(* the recurrence update of the residual is the recomputed residual *)
+Lemma resid_update x p a : length x = n -> length p = n ->
+  residA (axpy x p a) b = axpy (residA x b) (mulA p) (opp 1 * a).
+Proof.
+  intros Hx Hp.
+  rewrite residA_spec by (rewrite (axpy_length F add mul); congruence).
+  rewrite mulA_lin by assumption. rewrite (vsub_axpy F zero one add mul sub opp div inv Fth).
+  rewrite <- residA_spec by exact Hx. f_equal. ring.
+Qed.
+
+Lemma axpy_self_neg (m : list F) : axpy m m (opp 1) = zeros (length m).
+Proof. unfold KDefs.axpy. induction m as [|a m IH]; [reflexivity|]. simpl. f_equal; [ring|exact IH]. Qed.
+
+Lemma mulA_zeros : mulA (zeros n) = zeros n.
+Proof.
+  assert (L : length (zeros n) = n) by apply repeat_length.
+  pose proof (mulA_lin (zeros n) (zeros n) (opp 1) L L) as H.
+  rewrite (axpy_zeros_r F zero one add mul sub opp div inv Fth) in H by exact L.
+  rewrite axpy_self_neg, (mulA_len _ L) in H. exact H.
+Qed.
+
+(* ======== CG ======== *)
+Notation cgstep := (cg_step F zero one mul opp div eqb ltb mulA residA sops b).
+Notation cginit := (cg_init F residA sops b).
+
+Definition cg_inv (s : cg_state F) : Prop :=
+  length (cg_x s) = n /\ length (cg_r s) = n /\ length (cg_p s) = n /\
+  cg_r s = vsub b (mulA (cg_x s)) /\                      (* the carried residual is the true residual *)
+  cg_rr s = inner (cg_r s) (cg_r s) /\
+  inner (cg_r s) (cg_p s) = cg_rr s /\                    (* local orthogonality <r_k, p_k> = <r_k, r_k> *)
+  exists pre, cg_hist s = pre ++ [cg_rr s] /\ length pre = cg_iter s.   (* last reported = current *)
+
+Lemma cg_init_inv x0 : length x0 = n -> cg_inv (cginit x0).
+Proof.
+  intros H. unfold KDefs.cg_init, cg_inv; cbn [cg_x cg_r cg_p cg_rr cg_iter cg_hist cg_indef o_inner seq_ops].
+  pose proof (residA_len x0 H) as L.
+  split; [exact H|]. split; [exact L|]. split; [exact L|]. split; [apply residA_spec; exact H|].
+  split; [reflexivity|]. split; [reflexivity|]. exists []. split; reflexivity.
+Qed.
+
+Lemma cg_step_inv s s' : cg_inv s -> cgstep s = Some s' -> cg_inv s'.
+Proof.
+  intros (Hx & Hr & Hp & Hres & Hrr & Horth & pre & Hh & Hpre) Hs.
+  unfold KDefs.cg_step in Hs; cbn [o_inner o_axpy o_scale seq_ops] in Hs.
+  destruct (ltb (inner (mulA (cg_p s)) (cg_p s)) 0).
+  { inversion Hs; subst; unfold cg_inv; simpl. repeat split; auto. exists pre; split; assumption. }
+  destruct (fdiv (cg_rr s) (inner (mulA (cg_p s)) (cg_p s))) as [alpha|] eqn:Ea; [|discriminate].
+  apply fdiv_some in Ea. destruct Ea as [HApp ->].
+  set (App := inner (mulA (cg_p s)) (cg_p s)) in *.
+  set (alpha := cg_rr s / App) in *.
+  set (x' := axpy (cg_x s) (cg_p s) alpha) in *.
+  assert (Hx' : length x' = n) by (unfold x'; rewrite (axpy_length F add mul); congruence).
+  assert (HAp : length (mulA (cg_p s)) = n) by (apply mulA_len; exact Hp).
+  (* both branches of the residual update give the same vector *)
+  assert (Er : (if Nat.eqb (cg_iter s mod 8) 0 then residA x' b
+                else axpy (cg_r s) (mulA (cg_p s)) (opp 1 * alpha)) = axpy (cg_r s) (mulA (cg_p s)) (opp 1 * alpha)).
+  { destruct (Nat.eqb (cg_iter s mod 8) 0); [|reflexivity].
+    unfold x'. rewrite resid_update by assumption. rewrite residA_spec by exact Hx. rewrite <- Hres. reflexivity. }
+  rewrite Er in Hs.
+  assert (Er2 : axpy (cg_r s) (mulA (cg_p s)) (opp 1 * alpha) = vsub b (mulA x')).
+  { unfold x'. rewrite <- residA_spec by exact Hx'. unfold x'. rewrite resid_update by assumption.
+    rewrite residA_spec by exact Hx. rewrite <- Hres. reflexivity. }
+  set (r' := axpy (cg_r s) (mulA (cg_p s)) (opp 1 * alpha)) in *.
+  assert (Hr' : length r' = n) by (unfold r'; rewrite (axpy_length F add mul); congruence).
+  destruct (fdiv (inner r' r') (cg_rr s)) as [beta|] eqn:Eb; [|discriminate].
+  apply fdiv_some in Eb. destruct Eb as [Hrrnz ->].
+  inversion Hs; subst s'; unfold cg_inv; simpl.
+  assert (Hsc : length (vscale (cg_p s) (inner r' r' / cg_rr s)) = n) by (rewrite vscale_length; exact Hp).
+  split; [exact Hx'|]. split; [exact Hr'|].
+  split; [rewrite (axpy_length F add mul); congruence|].
+  split; [exact Er2|]. split; [reflexivity|].
+  split.
+  - (* <r', p'> = <r', r'> because <r', p> = 0 *)
+    rewrite (inner_axpy_r F zero one add mul sub opp div inv Fth) by congruence.
+    rewrite (inner_vscale_r F zero one add mul sub opp div inv Fth).
+    assert (Z : inner r' (cg_p s) = 0).
+    { unfold r'. rewrite (inner_axpy_l F zero one add mul sub opp div inv Fth) by congruence.
+      rewrite Horth. fold App. unfold alpha. field. exact HApp. }
+    rewrite Z. ring.
+  - exists (pre ++ [cg_rr s]). split; [rewrite Hh; reflexivity|]. rewrite app_length, Hpre. simpl. lia.
+Qed.
+
+(* one CG step, spelled out: what the new iterate and residual are *)
+Lemma cg_step_shape s s' : cg_inv s -> cgstep s = Some s' -> cg_indef s' = false ->
+  let App := inner (mulA (cg_p s)) (cg_p s) in
+  App <> 0 /\ cg_x s' = axpy (cg_x s) (cg_p s) (cg_rr s / App) /\ cg_iter s' = S (cg_iter s) /\
+  cg_hist s' = cg_hist s ++ [cg_rr s'].
+Proof.
+  intros (Hx & Hr & Hp & Hres & Hrr & Horth & pre & Hh & Hpre) Hs Hind.
+  unfold KDefs.cg_step in Hs; cbn [o_inner o_axpy o_scale seq_ops] in Hs.
+  destruct (ltb (inner (mulA (cg_p s)) (cg_p s)) 0).
+  { inversion Hs; subst; simpl in Hind; discriminate. }
+  destruct (fdiv (cg_rr s) (inner (mulA (cg_p s)) (cg_p s))) as [alpha|] eqn:Ea; [|discriminate].
+  apply fdiv_some in Ea. destruct Ea as [HApp ->].
+  match type of Hs with context [fdiv ?a ?c] => destruct (fdiv a c) as [beta|]; [|discriminate] end.
+  inversion Hs; subst s'; simpl. repeat split; auto.
+Qed.
+
+(* ---- energy norm of the error ---- *)
+Variable xs : list F.                         (* the solution *)
+Hypothesis Hxs : length xs = n.
+Hypothesis Hsol : mulA xs = b.
+Hypothesis mulA_sym : forall u v, length u = n -> length v = n -> inner (mulA u) v = inner u (mulA v).
+
+Definition err (x : list F) : list F := vsub xs x.
+Definition energy (x : list F) : F := inner (mulA (err x)) (err x).     (* ||x* - x||_A^2 *)
+
+Lemma mulA_err x : length x = n -> mulA (err x) = vsub b (mulA x).
+Proof.
+  intros H. unfold err. rewrite (vsub_as_axpy F zero one add mul sub opp div inv Fth).
+  rewrite mulA_lin by assumption. rewrite Hsol. rewrite <- (vsub_as_axpy F zero one add mul sub opp div inv Fth). reflexivity.
+Qed.
+
+Theorem cg_energy_identity s s' : cg_inv s -> cgstep s = Some s' -> cg_indef s' = false ->
+  let App := inner (mulA (cg_p s)) (cg_p s) in
+  App <> 0 /\ energy (cg_x s') = energy (cg_x s) - (cg_rr s * cg_rr s) / App.
+Proof.
+  intros Hinv Hs Hind. destruct (cg_step_shape s s' Hinv Hs Hind) as (HApp & Hx' & _).
+  destruct Hinv as (Hx & Hr & Hp & Hres & Hrr & Horth & _).
+  split; [exact HApp|]. cbv zeta in *.
+  set (App := inner (mulA (cg_p s)) (cg_p s)) in *. set (a := cg_rr s / App) in *.
+  assert (He : length (err (cg_x s)) = n) by (unfold err; rewrite (vsub_length F sub); congruence).
+  assert (HAp : length (mulA (cg_p s)) = n) by (apply mulA_len; exact Hp).
+  unfold energy. rewrite Hx'.
+  assert (E1 : err (axpy (cg_x s) (cg_p s) a) = axpy (err (cg_x s)) (cg_p s) (opp a)).
+  { unfold err. apply (vsub_axpy F zero one add mul sub opp div inv Fth). }
+  rewrite E1. rewrite mulA_lin by assumption. rewrite mulA_err by exact Hx. rewrite <- Hres.
+  rewrite (inner_axpy_l F zero one add mul sub opp div inv Fth) by congruence.
+  rewrite !(inner_axpy_r F zero one add mul sub opp div inv Fth) by congruence.
+  rewrite Horth.
+  assert (S1 : inner (mulA (cg_p s)) (err (cg_x s)) = cg_rr s).
+  { rewrite mulA_sym by assumption. rewrite mulA_err by exact Hx. rewrite <- Hres.
+    rewrite (inner_comm F zero one add mul sub opp div inv Fth). exact Horth. }
+  rewrite S1. fold App. unfold a. field. exact HApp.
+Qed.
+
+
+(* ---- order: SPD operators, monotone energy, no breakdown, immediate return ---- *)
+Variable le : F -> F -> Prop.
+Hypothesis le_refl : forall a, le a a.
+Hypothesis le_antisym : forall a c, le a c -> le c a -> a = c.
+Hypothesis le_trans : forall a c d, le a c -> le c d -> le a d.
+Hypothesis le_total : forall a c, le a c \/ le c a.
+Hypothesis le_add : forall a c d, le a c -> le (add a d) (add c d).
+Hypothesis le_mul : forall a c, le zero a -> le zero c -> le zero (mul a c).
+Infix "<=" := le.
+Notation "a < c" := (flt F le a c).
+Hypothesis ltb_spec : forall a c, ltb a c = true <-> a < c.
+Variable tol : F.
+Notation thresh := (thresh F zero mul eqb tol).
+Notation cgcont := (cg_cont F ltb).
+
+Lemma ltb_false_of_le a c : c <= a -> ltb a c = false.
+Proof.
+  intros H. destruct (ltb a c) eqn:E; [|reflexivity]. apply ltb_spec in E.
+  exfalso. eapply (lt_not_le F le le_antisym); eauto.
+Qed.
+
+Lemma thresh_nonneg q : 0 <= q -> 0 <= thresh q.
+Proof.
+  intros H. unfold KDefs.thresh, KDefs.tol2.
+  pose proof (sq_nonneg F zero one add mul sub opp div inv Fth le le_total le_add le_mul tol) as Ht.
+  destruct (eqb q 0); [exact Ht|apply le_mul; assumption].
+Qed.
+
+Hypothesis SPD : forall v, length v = n -> v <> zeros n -> 0 < inner (mulA v) v.
+
+Lemma cg_cont_facts thr s : cgcont thr s = true -> 0 <= thr -> cg_indef s = false /\ 0 < cg_rr s.
+Proof.
+  unfold KDefs.cg_cont. intros H Ht. apply andb_prop in H. destruct H as [H1 H2].
+  split; [destruct (cg_indef s); [discriminate|reflexivity]|].
+  apply ltb_spec in H2. eapply (le_lt_trans F le le_antisym le_trans); eauto.
+Qed.
+
+Lemma cg_App_pos s : cg_inv s -> 0 < cg_rr s -> 0 < inner (mulA (cg_p s)) (cg_p s).
+Proof.
+  intros (Hx & Hr & Hp & Hres & Hrr & Horth & _) [_ Hne].
+  apply SPD; [exact Hp|]. intros E. rewrite E in Horth.
+  rewrite (inner_zeros_r F zero one add mul sub opp div inv Fth) in Horth. apply Hne. exact Horth.
+Qed.
+
+(* on an SPD operator a CG iteration entered with a non-zero residual never divides by zero and never
+   reports an indefinite matrix *)
+Lemma cg_safe thr s : cg_inv s -> cgcont thr s = true -> 0 <= thr ->
+  exists s', cgstep s = Some s' /\ cg_indef s' = false.
+Proof.
+  intros Hinv Hc Ht. destruct (cg_cont_facts thr s Hc Ht) as [Hind Hpos].
+  pose proof (cg_App_pos s Hinv Hpos) as HApp.
+  unfold KDefs.cg_step; cbn [o_inner o_axpy o_scale seq_ops].
+  rewrite ltb_false_of_le by (destruct HApp as [H _]; exact H).
+  assert (HA0 : inner (mulA (cg_p s)) (cg_p s) <> 0) by (destruct HApp as [_ H]; intros E; apply H; symmetry; exact E).
+  assert (HR0 : cg_rr s <> 0) by (destruct Hpos as [_ H]; intros E; apply H; symmetry; exact E).
+  rewrite (fdiv_nonzero _ _ HA0). rewrite (fdiv_nonzero _ _ HR0).
+  eexists. split; reflexivity.
+Qed.
+
+(* CG on SPD: the energy norm of the error does not increase *)
+Theorem cg_energy_monotone thr s s' : cg_inv s -> cgcont thr s = true -> 0 <= thr -> cgstep s = Some s' ->
+  energy (cg_x s') <= energy (cg_x s).
+Proof.
+  intros Hinv Hc Ht Hs. destruct (cg_cont_facts thr s Hc Ht) as [Hind Hpos].
+  destruct (cg_safe thr s Hinv Hc Ht) as (s2 & Hs2 & Hi2). rewrite Hs in Hs2. inversion Hs2; subst s2.
+  destruct (cg_energy_identity s s' Hinv Hs Hi2) as [HA0 ->].
+  apply (sub_nonneg_le F zero one add mul sub opp div inv Fth le le_add).
+  apply (div_nonneg F zero one add mul sub opp div inv Fth le le_antisym le_total le_add le_mul).
+  - apply (sq_nonneg F zero one add mul sub opp div inv Fth le le_total le_add le_mul).
+  - apply cg_App_pos; assumption.
+Qed.
+
+Notation cgrun := (cg_run F zero one mul opp div eqb ltb mulA residA sops b tol).
+Notation cgthr := (cg_thr F zero mul eqb residA sops b tol).
+
+Lemma cg_thr_nonneg x0 : 0 <= cgthr x0.
+Proof.
+  unfold KDefs.cg_thr. apply thresh_nonneg. unfold KDefs.cg_init; cbn [cg_rr o_inner seq_ops].
+  apply (inner_self_nonneg F zero one add mul sub opp div inv Fth le le_refl le_trans le_total le_add le_mul).
+Qed.
+
+(* on SPD systems the CG loop always leaves normally, and the returned state satisfies the invariant *)
+Theorem cg_run_total max_iter x0 : length x0 = n ->
+  exists s', cgrun max_iter x0 = Done s' /\ cg_inv s' /\ cg_indef s' = false.
+Proof.
+  intros Hx0. unfold KDefs.cg_run.
+  set (Inv := fun s => cg_inv s /\ cg_indef s = false).
+  assert (Hstep : forall s s', Inv s -> cgcont (cgthr x0) s = true -> cgstep s = Some s' -> Inv s').
+  { intros s s' [Hi _] Hc Hs. split; [eapply cg_step_inv; eauto|].
+    destruct (cg_safe _ s Hi Hc (cg_thr_nonneg x0)) as (s2 & Hs2 & Hi2). congruence. }
+  assert (Hsafe : forall s, Inv s -> cgcont (cgthr x0) s = true -> cgstep s <> None).
+  { intros s [Hi _] Hc. destruct (cg_safe _ s Hi Hc (cg_thr_nonneg x0)) as (s2 & Hs2 & _). congruence. }
+  assert (H0 : Inv (cginit x0)) by (split; [apply cg_init_inv; exact Hx0|reflexivity]).
+  destruct (run_no_break _ _ _ Inv Hstep Hsafe max_iter _ H0) as [s' Hr].
+  exists s'. split; [exact Hr|].
+  pose proof (run_invariant _ _ _ Inv Hstep max_iter _ H0) as Hi. rewrite Hr in Hi. exact Hi.
+Qed.
+
+(* start at the exact solution (this covers b = 0, x0 = 0): immediate return, no arithmetic on non-finite values *)
+Theorem cg_exact_start max_iter x0 : length x0 = n -> mulA x0 = b ->
+  cgrun max_iter x0 = Done (cginit x0) /\ cg_x (cginit x0) = x0 /\ cg_hist (cginit x0) = [0] /\ cg_iter (cginit x0) = O.
+Proof.
+  intros Hx0 Hex.
+  assert (R0 : residA x0 b = zeros n).
+  { rewrite residA_spec by exact Hx0. rewrite Hex, (vsub_self F zero one add mul sub opp div inv Fth), Hb. reflexivity. }
+  assert (RR : cg_rr (cginit x0) = 0).
+  { unfold KDefs.cg_init; cbn [cg_rr o_inner seq_ops]. rewrite R0. apply (inner_zeros_r F zero one add mul sub opp div inv Fth). }
+  split; [|split; [reflexivity|split; [|reflexivity]]].
+  - unfold KDefs.cg_run. destruct max_iter as [|m]; [reflexivity|]. simpl run.
+    replace (cgcont (cgthr x0) (cginit x0)) with false; [reflexivity|].
+    symmetry. unfold KDefs.cg_cont. rewrite RR. rewrite ltb_false_of_le by apply cg_thr_nonneg. apply andb_false_r.
+  - unfold KDefs.cg_init in *; cbn [cg_rr cg_hist o_inner seq_ops] in *. rewrite RR. reflexivity.
+Qed.
+
+(* the history: entry number cg_iter s_j of the returned history is the squared true residual of iterate j *)
+Lemma cg_step_hist s s' : cgstep s = Some s' -> exists t, cg_hist s' = cg_hist s ++ t.
+Proof.
+  intros Hs. unfold KDefs.cg_step in Hs; cbn [o_inner o_axpy o_scale seq_ops] in Hs.
+  destruct (ltb _ 0); [inversion Hs; subst; exists []; simpl; rewrite app_nil_r; reflexivity|].
+  destruct (fdiv _ _) as [alpha|]; [|discriminate].
+  destruct (fdiv _ _) as [beta|]; [|discriminate].
+  inversion Hs; subst; simpl. eexists; reflexivity.
+Qed.
+
+Lemma cg_iter_hist k s s' : iter_n cgstep k s = Some s' -> exists t, cg_hist s' = cg_hist s ++ t.
+Proof.
+  revert s; induction k as [|k IH]; intros s H; simpl in H.
+  - inversion H; subst. exists []. rewrite app_nil_r. reflexivity.
+  - destruct (cgstep s) as [s1|] eqn:Es; [|discriminate].
+    destruct (cg_step_hist _ _ Es) as [t1 H1]. destruct (IH _ H) as [t2 H2].
+    exists (t1 ++ t2). rewrite H2, H1, app_assoc. reflexivity.
+Qed.
+
+Definition true_res_sq (x : list F) : F := inner (vsub b (mulA x)) (vsub b (mulA x)).   (* ||b - A x||^2 *)
+
+Theorem cg_history_true K x0 sK : length x0 = n -> iter_n cgstep K (cginit x0) = Some sK ->
+  (forall j, (j <= K)%nat -> exists sj, iter_n cgstep j (cginit x0) = Some sj /\
+      nth (cg_iter sj) (cg_hist sK) 0 = true_res_sq (cg_x sj)) /\
+  last (cg_hist sK) 0 = true_res_sq (cg_x sK) /\ length (cg_hist sK) = S (cg_iter sK).
+Proof.
+  intros Hx0 HK.
+  assert (Hinv : forall k s, iter_n cgstep k (cginit x0) = Some s -> cg_inv s).
+  { intros k s H. eapply (iter_n_invariant _ cgstep cg_inv); [|apply cg_init_inv; exact Hx0|exact H].
+    intros; eapply cg_step_inv; eauto. }
+  split; [|split].
+  - intros j Hj. destruct (iter_n_prefix _ _ _ _ _ j HK Hj) as (sj & H1 & H2).
+    exists sj. split; [exact H1|].
+    destruct (cg_iter_hist _ _ _ H2) as [t Ht].
+    destruct (Hinv _ _ H1) as (_ & _ & _ & Hres & Hrr & _ & pre & Hh & Hpre).
+    rewrite Ht, Hh, <- app_assoc. simpl. rewrite <- Hpre. rewrite nth_middle.
+    unfold true_res_sq. rewrite <- Hres. exact Hrr.
+  - destruct (Hinv _ _ HK) as (_ & _ & _ & Hres & Hrr & _ & pre & Hh & Hpre).
+    rewrite Hh, last_last. unfold true_res_sq. rewrite <- Hres. exact Hrr.
+  - destruct (Hinv _ _ HK) as (_ & _ & _ & _ & _ & _ & pre & Hh & Hpre).
+    rewrite Hh, app_length, Hpre. simpl. lia.
+Qed.
+
+
+(* ======== BiCGStab ======== *)
+Notation bistep := (bi_step F zero one mul opp div eqb mulA sops).
+Notation bihalf := (bi_half F zero one mul opp div eqb mulA sops).
+Notation biinit := (bi_init F residA sops b).
+
+Definition bi_inv (s : bi_state F) : Prop :=
+  length (bi_x s) = n /\ length (bi_r s) = n /\ (forall p, bi_p s = Some p -> length p = n) /\
+  bi_r s = vsub b (mulA (bi_x s)) /\                      (* the carried residual is the true residual *)
+  bi_nsq s = norm2sq (bi_r s) /\
+  exists pre, bi_hist s = pre ++ [bi_nsq s] /\ length pre = bi_iter s.
+
+Lemma bi_init_inv x0 : length x0 = n -> bi_inv (biinit x0).
+Proof.
+  intros H. pose proof (residA_len x0 H) as L. unfold KDefs.bi_init, bi_inv; simpl.
+  split; [exact H|]. split; [exact L|]. split; [intros p Hp; inversion Hp; subst; exact L|].
+  split; [apply residA_spec; exact H|]. split; [reflexivity|]. exists []. split; reflexivity.
+Qed.
+
+Lemma bi_step_inv seqform rstar s s' : length rstar = n -> bi_inv s -> bistep seqform rstar s = Some s' -> bi_inv s'.
+Proof.
+  intros Hrs (Hx & Hr & Hp & Hres & Hn & pre & Hh & Hpre) Hs.
+  unfold KDefs.bi_step, KDefs.bi_half in Hs; cbn [o_inner o_axpy o_scale o_norm2sq seq_ops] in Hs.
+  destruct (bi_p s) as [p|] eqn:Ep; [|discriminate]. specialize (Hp p eq_refl).
+  destruct (fdiv (bi_rrs s) (inner (mulA p) rstar)) as [alpha|]; [|discriminate].
+  set (Ap := mulA p) in *. set (sv := axpy (bi_r s) Ap (opp 1 * alpha)) in *.
+  destruct (fdiv (inner (mulA sv) sv) (inner (mulA sv) (mulA sv))) as [omega|]; [|discriminate].
+  assert (HAp : length Ap = n) by (apply mulA_len; exact Hp).
+  assert (Hsv : length sv = n) by (unfold sv; rewrite (axpy_length F add mul); congruence).
+  assert (HAs : length (mulA sv) = n) by (apply mulA_len; exact Hsv).
+  set (x1 := axpy (bi_x s) p alpha) in *.
+  assert (Hx1 : length x1 = n) by (unfold x1; rewrite (axpy_length F add mul); congruence).
+  set (x' := axpy x1 sv omega) in *.
+  assert (Hx' : length x' = n) by (unfold x'; rewrite (axpy_length F add mul); congruence).
+  set (r' := axpy sv (mulA sv) (opp 1 * omega)) in *.
+  assert (Hr' : length r' = n) by (unfold r'; rewrite (axpy_length F add mul); congruence).
+  assert (Er : r' = vsub b (mulA x')).
+  { rewrite <- residA_spec by exact Hx'. unfold x'. rewrite resid_update by assumption.
+    unfold x1. rewrite resid_update by assumption. rewrite residA_spec by exact Hx. rewrite <- Hres. reflexivity. }
+  inversion Hs; subst s'; unfold bi_inv; simpl.
+  split; [exact Hx'|]. split; [exact Hr'|]. split.
+  - intros q Hq.
+    destruct (fdiv (inner rstar r') (bi_rrs s)) as [q1|]; [|discriminate].
+    destruct (fdiv alpha omega) as [q2|]; [|discriminate].
+    inversion Hq; subst q. destruct seqform.
+    + rewrite (axpy_length F add mul); rewrite vscale_length; rewrite ?(axpy_length F add mul); congruence.
+    + rewrite (axpy_length F add mul); rewrite (axpy_length F add mul); rewrite ?vscale_length; congruence.
+  - split; [exact Er|]. split; [reflexivity|].
+    exists (pre ++ [bi_nsq s]). split; [rewrite Hh; reflexivity|]. rewrite app_length, Hpre. simpl. lia.
+Qed.
+
+(* half-step breakdown: when s = r - alpha A p is the zero vector, omega = 0/0 *)
+Theorem bi_halfstep_breaks seqform rstar s alpha p Ap :
+  bihalf rstar s = Some (alpha, p, Ap, zeros n) -> bistep seqform rstar s = None.
+Proof.
+  intros H. unfold KDefs.bi_step. rewrite H. cbn [o_inner seq_ops].
+  rewrite mulA_zeros. rewrite (inner_zeros_r F zero one add mul sub opp div inv Fth). rewrite fdiv_zero. reflexivity.
+Qed.
+
+Notation birun := (bi_run F zero one mul opp div eqb ltb mulA residA sops b tol).
+Notation bithr := (bi_thr F zero mul eqb residA sops b tol).
+Notation bicont := (bi_cont F ltb).
+
+Lemma norm2sq_nonneg v : 0 <= norm2sq v.
+Proof.
+  rewrite (norm2sq_sumf F zero one add mul sub opp div inv Fth).
+  induction v as [|a v IH]; simpl; [apply le_refl|].
+  apply (add_nonneg F zero one add mul sub opp div inv Fth le le_trans le_add); [|exact IH].
+  unfold gsq. destruct (tiny a); [apply le_refl|apply (sq_nonneg F zero one add mul sub opp div inv Fth le le_total le_add le_mul)].
+Qed.
+
+Theorem bi_exact_start seqform max_iter x0 : length x0 = n -> mulA x0 = b ->
+  birun seqform max_iter x0 = Done (biinit x0) /\ bi_x (biinit x0) = x0 /\ bi_hist (biinit x0) = [0] /\ bi_iter (biinit x0) = O.
+Proof.
+  intros Hx0 Hex.
+  assert (R0 : residA x0 b = zeros n).
+  { rewrite residA_spec by exact Hx0. rewrite Hex, (vsub_self F zero one add mul sub opp div inv Fth), Hb. reflexivity. }
+  assert (NN : bi_nsq (biinit x0) = 0).
+  { unfold KDefs.bi_init; cbn [bi_nsq o_norm2sq seq_ops]. rewrite R0. apply (norm2sq_zeros F zero one add mul sub opp div inv Fth). }
+  split; [|split; [reflexivity|split; [|reflexivity]]].
+  - unfold KDefs.bi_run. destruct max_iter as [|m]; [reflexivity|]. simpl run.
+    replace (bicont (bithr x0) (biinit x0)) with false; [reflexivity|].
+    symmetry. unfold KDefs.bi_cont. rewrite NN. apply ltb_false_of_le.
+    unfold KDefs.bi_thr. apply thresh_nonneg. rewrite NN. apply le_refl.
+  - unfold KDefs.bi_init in *; cbn [bi_nsq bi_hist o_norm2sq seq_ops] in *. rewrite NN. reflexivity.
+Qed.
+
+Lemma bi_step_hist seqform rstar s s' : bistep seqform rstar s = Some s' -> exists t, bi_hist s' = bi_hist s ++ t.
+Proof.
+  intros Hs. unfold KDefs.bi_step, KDefs.bi_half in Hs; cbn [o_inner o_axpy o_scale o_norm2sq seq_ops] in Hs.
+  destruct (bi_p s) as [p|]; [|discriminate].
+  destruct (fdiv _ _) as [alpha|]; [|discriminate].
+  destruct (fdiv _ _) as [omega|]; [|discriminate].
+  inversion Hs; subst; simpl. eexists; reflexivity.
+Qed.
+
+Lemma bi_iter_hist seqform rstar k s s' : iter_n (bistep seqform rstar) k s = Some s' -> exists t, bi_hist s' = bi_hist s ++ t.
+Proof.
+  revert s; induction k as [|k IH]; intros s H; simpl in H.
+  - inversion H; subst. exists []. rewrite app_nil_r. reflexivity.
+  - destruct (bistep seqform rstar s) as [s1|] eqn:Es; [|discriminate].
+    destruct (bi_step_hist _ _ _ _ Es) as [t1 H1]. destruct (IH _ H) as [t2 H2].
+    exists (t1 ++ t2). rewrite H2, H1, app_assoc. reflexivity.
+Qed.
+
+Definition true_res_nsq (x : list F) : F := norm2sq (vsub b (mulA x)).    (* Vector::norm(2)^2 of b - A x *)
+
+Theorem bi_history_true seqform K x0 sK : length x0 = n ->
+  iter_n (bistep seqform (bi_r (biinit x0))) K (biinit x0) = Some sK ->
+  (forall j, (j <= K)%nat -> exists sj, iter_n (bistep seqform (bi_r (biinit x0))) j (biinit x0) = Some sj /\
+      nth (bi_iter sj) (bi_hist sK) 0 = true_res_nsq (bi_x sj)) /\
+  last (bi_hist sK) 0 = true_res_nsq (bi_x sK) /\ length (bi_hist sK) = S (bi_iter sK).
+Proof.
+  intros Hx0 HK.
+  assert (Hrs : length (bi_r (biinit x0)) = n) by (apply residA_len; exact Hx0).
+  assert (Hinv : forall k s, iter_n (bistep seqform (bi_r (biinit x0))) k (biinit x0) = Some s -> bi_inv s).
+  { intros k s H. eapply (iter_n_invariant _ _ bi_inv); [|apply bi_init_inv; exact Hx0|exact H].
+    intros; eapply bi_step_inv; eauto. }
+  split; [|split].
+  - intros j Hj. destruct (iter_n_prefix _ _ _ _ _ j HK Hj) as (sj & H1 & H2).
+    exists sj. split; [exact H1|].
+    destruct (bi_iter_hist _ _ _ _ _ H2) as [t Ht].
+    destruct (Hinv _ _ H1) as (_ & _ & _ & Hres & Hn & pre & Hh & Hpre).
+    rewrite Ht, Hh, <- app_assoc. simpl. rewrite <- Hpre. rewrite nth_middle.
+    unfold true_res_nsq. rewrite <- Hres. exact Hn.
+  - destruct (Hinv _ _ HK) as (_ & _ & _ & Hres & Hn & pre & Hh & Hpre).
+    rewrite Hh, last_last. unfold true_res_nsq. rewrite <- Hres. exact Hn.
+  - destruct (Hinv _ _ HK) as (_ & _ & _ & _ & _ & pre & Hh & Hpre).
+    rewrite Hh, app_length, Hpre. simpl. lia.
+Qed.
+
+
+(* ======== PCG ======== *)
+Variable prec : list F -> list F.
+Variable ztol2 : F.
+Hypothesis prec_len : forall r, length r = n -> length (prec r) = n.
+Notation pcstep := (pcg_step F zero one mul opp div eqb ltb mulA residA sops b tol prec ztol2).
+Notation pcinit := (pcg_init F residA sops b prec).
+Notation pctest := (pcg_test F zero mul ltb sops b tol prec ztol2).
+Notation binner := (pcg_binner F sops b prec).
+Notation pcrun := (pcg_run F zero one mul opp div eqb ltb mulA residA sops b tol prec ztol2).
+
+Definition rz_of (x : list F) : F := inner (vsub b (mulA x)) (prec (vsub b (mulA x))).   (* <r, M^-1 r>, r = b - A x *)
+
+Definition pcg_inv (s : pcg_state F) : Prop :=
+  length (pc_x s) = n /\ length (pc_r s) = n /\ length (pc_p s) = n /\
+  pc_r s = vsub b (mulA (pc_x s)) /\
+  (pc_indef s = false ->
+     (exists pre, pc_hist s = pre ++ [if Nat.eqb (pc_iter s) 0 then rz_of (pc_x s) else rz_of (pc_x s) / binner]
+                  /\ length pre = pc_iter s) /\
+     (pc_iter s <> O -> binner <> 0 /\ pc_stop s = pctest (rz_of (pc_x s))) /\     (* break <-> the test holds for the iterate just reported *)
+     (pc_stop s = false -> pc_rz s = rz_of (pc_x s))).
+
+Lemma pcg_init_inv x0 : length x0 = n -> pcg_inv (pcinit x0).
+Proof.
+  intros H. pose proof (residA_len x0 H) as L. unfold KDefs.pcg_init, pcg_inv; simpl.
+  split; [exact H|]. split; [exact L|]. split; [apply prec_len; exact L|].
+  split; [apply residA_spec; exact H|]. intros _.
+  unfold rz_of. rewrite <- residA_spec by exact H. cbn [o_inner seq_ops].
+  split; [exists []; split; reflexivity|]. split; [intros E; contradiction|reflexivity].
+Qed.
+
+Lemma pcg_step_inv s s' : pcg_inv s -> pc_stop s = false -> pc_indef s = false -> pcstep s = Some s' -> pcg_inv s'.
+Proof.
+  intros (Hx & Hr & Hp & Hres & Hrest) Hst Hind Hs.
+  destruct (Hrest Hind) as ((pre & Hh & Hpre) & Htest & Hrz). clear Hrest.
+  unfold KDefs.pcg_step in Hs; cbn [o_inner o_axpy o_scale seq_ops] in Hs.
+  destruct (ltb (inner (mulA (pc_p s)) (pc_p s)) 0).
+  { inversion Hs; subst s'; unfold pcg_inv; simpl. repeat split; auto; discriminate. }
+  destruct (fdiv (pc_rz s) (inner (mulA (pc_p s)) (pc_p s))) as [alpha|]; [|discriminate].
+  set (x' := axpy (pc_x s) (pc_p s) alpha) in *.
+  assert (Hx' : length x' = n) by (unfold x'; rewrite (axpy_length F add mul); congruence).
+  assert (HAp : length (mulA (pc_p s)) = n) by (apply mulA_len; exact Hp).
+  assert (Er : (if Nat.eqb (S (pc_iter s) mod 8) 0 then residA x' b
+                else axpy (pc_r s) (mulA (pc_p s)) (opp 1 * alpha)) = vsub b (mulA x')).
+  { rewrite <- (residA_spec x' Hx').
+    destruct (Nat.eqb (S (pc_iter s) mod 8) 0); [reflexivity|].
+    unfold x'. rewrite resid_update by assumption. rewrite residA_spec by exact Hx. rewrite <- Hres. reflexivity. }
+  rewrite Er in Hs. set (r' := vsub b (mulA x')) in *.
+  assert (Hr' : length r' = n) by (unfold r'; rewrite (vsub_length F sub); [exact Hb|rewrite mulA_len by exact Hx'; exact Hb]).
+  assert (Hz' : length (prec r') = n) by (apply prec_len; exact Hr').
+  destruct (fdiv (inner r' (prec r')) binner) as [rep|] eqn:Erep; [|discriminate].
+  apply fdiv_some in Erep. destruct Erep as [Hbi ->].
+  assert (Hhist : exists pre0, pc_hist s ++ [inner r' (prec r') / binner] = pre0 ++ [inner r' (prec r') / binner]
+                               /\ length pre0 = S (pc_iter s)).
+  { exists (pc_hist s). split; [reflexivity|]. rewrite Hh, app_length, Hpre. simpl. lia. }
+  destruct (pctest (inner r' (prec r'))) eqn:Et.
+  { inversion Hs; subst s'; unfold pcg_inv; simpl. fold r'. unfold rz_of; fold r'.
+    split; [exact Hx'|]. split; [exact Hr'|]. split; [exact Hp|]. split; [reflexivity|]. intros _.
+    split; [exact Hhist|]. split; [intros _; split; [exact Hbi|symmetry; exact Et]|discriminate]. }
+  destruct (Nat.eqb (S (pc_iter s) mod 8) 0).
+  { inversion Hs; subst s'; unfold pcg_inv; simpl. unfold rz_of; fold r'.
+    split; [exact Hx'|]. split; [exact Hr'|]. split; [exact Hz'|]. split; [reflexivity|]. intros _.
+    split; [exact Hhist|]. split; [intros _; split; [exact Hbi|symmetry; exact Et]|reflexivity]. }
+  destruct (fdiv (inner r' (prec r')) (pc_rz s)) as [beta|]; [|discriminate].
+  inversion Hs; subst s'; unfold pcg_inv; simpl. unfold rz_of; fold r'.
+  split; [exact Hx'|]. split; [exact Hr'|].
+  split; [rewrite (axpy_length F add mul); rewrite vscale_length; congruence|]. split; [reflexivity|]. intros _.
+  split; [exact Hhist|]. split; [intros _; split; [exact Hbi|symmetry; exact Et]|reflexivity].
+Qed.
+
+Hypothesis prec_zeros : prec (zeros n) = zeros n.
+
+(* PCG has no initial convergence test: started at the exact solution it computes alpha = 0/0 *)
+Theorem pcg_exact_start_breaks max_iter x0 : length x0 = n -> mulA x0 = b ->
+  pcrun (S max_iter) x0 = Broke (pcinit x0).
+Proof.
+  intros Hx0 Hex.
+  assert (R0 : residA x0 b = zeros n).
+  { rewrite residA_spec by exact Hx0. rewrite Hex, (vsub_self F zero one add mul sub opp div inv Fth), Hb. reflexivity. }
+  unfold KDefs.pcg_run. simpl run. unfold KDefs.pcg_cont at 1. unfold KDefs.pcg_init at 1 2. simpl.
+  unfold KDefs.pcg_step, KDefs.pcg_init; cbn [pc_p pc_rz pc_x pc_r o_inner seq_ops].
+  rewrite R0, prec_zeros, mulA_zeros. rewrite !(inner_zeros_r F zero one add mul sub opp div inv Fth).
+  rewrite ltb_false_of_le by apply le_refl. rewrite fdiv_zero. reflexivity.
+Qed.
+
+
+(* ======== distributed solvers = sequential solvers, for every partition ======== *)
+Variable parts : list nat.
+Hypothesis Hparts : psum parts = n.
+Notation dops := (dist_ops F zero add mul tiny parts).
+Notation dinner := (KDefs.dinner F zero add mul parts).
+Notation dnorm2sq := (KDefs.dnorm2sq F zero add mul tiny parts).
+Notation daxpy := (KDefs.daxpy F add mul parts).
+Notation dscale := (KDefs.dscale F mul parts).
+
+Lemma dI u v : length u = n -> length v = n -> dinner u v = inner u v.
+Proof. intros; apply (dinner_assembled F zero one add mul sub opp div inv Fth); congruence. Qed.
+Lemma dN v : length v = n -> dnorm2sq v = norm2sq v.
+Proof. intros; apply (dnorm2sq_assembled F zero one add mul sub opp div inv Fth tiny); congruence. Qed.
+Lemma dA y x a : length y = n -> length x = n -> daxpy y x a = axpy y x a.
+Proof. intros; apply daxpy_assembled; congruence. Qed.
+Lemma dS y a : length y = n -> dscale y a = vscale y a.
+Proof. intros; apply dscale_assembled; congruence. Qed.
+Lemma dA_len y x a : length y = n -> length x = n -> length (daxpy y x a) = n.
+Proof. intros. rewrite dA by assumption. rewrite (axpy_length F add mul); congruence. Qed.
+Lemma dS_len y a : length y = n -> length (dscale y a) = n.
+Proof. intros. rewrite dS by assumption. rewrite vscale_length. assumption. Qed.
+Lemma axpy_len_n y x a : length y = n -> length x = n -> length (axpy y x a) = n.
+Proof. intros. rewrite (axpy_length F add mul); congruence. Qed.
+Lemma vscale_len_n y a : length y = n -> length (vscale y a) = n.
+Proof. intros. rewrite vscale_length. assumption. Qed.
+
+Ltac slen :=
+  repeat first [ assumption
+               | apply dA_len | apply dS_len | apply axpy_len_n | apply vscale_len_n
+               | apply mulA_len | apply residA_len | apply prec_len ].
+Ltac undist :=
+  repeat first [ rewrite dI by slen | rewrite dN by slen | rewrite dA by slen | rewrite dS by slen ].
+
+Lemma cg_step_dist s : length (cg_x s) = n -> length (cg_r s) = n -> length (cg_p s) = n ->
+  cg_step F zero one mul opp div eqb ltb mulA residA dops b s = cgstep s.
+Proof.
+  intros Hx Hr Hp. unfold KDefs.cg_step; cbn [o_inner o_axpy o_scale o_norm2sq dist_ops seq_ops].
+  undist. destruct (ltb _ 0); [reflexivity|].
+  destruct (fdiv _ _) as [alpha|]; [|reflexivity].
+  destruct (Nat.eqb (cg_iter s mod 8) 0); undist; (destruct (fdiv _ _) as [beta|]; [|reflexivity]); undist; reflexivity.
+Qed.
+
+Theorem cg_run_dist max_iter x0 : length x0 = n ->
+  cg_run F zero one mul opp div eqb ltb mulA residA dops b tol max_iter x0 = cgrun max_iter x0.
+Proof.
+  intros Hx0.
+  assert (E0 : cg_init F residA dops b x0 = cginit x0).
+  { unfold KDefs.cg_init; cbn [o_inner dist_ops seq_ops]. undist. reflexivity. }
+  unfold KDefs.cg_run, KDefs.cg_thr. rewrite E0.
+  apply (run_ext _ _ cgstep _ _ cg_inv).
+  - intros; eapply cg_step_inv; eauto.
+  - reflexivity.
+  - intros s (Hx & Hr & Hp & _) _. apply cg_step_dist; assumption.
+  - apply cg_init_inv; exact Hx0.
+Qed.
+
+Lemma bi_step_dist seqform rstar s : length rstar = n -> bi_inv s ->
+  bi_step F zero one mul opp div eqb mulA dops seqform rstar s = bistep seqform rstar s.
+Proof.
+  intros Hrs (Hx & Hr & Hp & _).
+  unfold KDefs.bi_step, KDefs.bi_half; cbn [o_inner o_axpy o_scale o_norm2sq dist_ops seq_ops].
+  destruct (bi_p s) as [p|]; [|reflexivity]. specialize (Hp p eq_refl).
+  undist. destruct (fdiv _ _) as [alpha|]; [|reflexivity].
+  undist. destruct (fdiv _ _) as [omega|]; [|reflexivity].
+  undist. destruct (fdiv _ _) as [q1|]; [|reflexivity].
+  destruct (fdiv alpha omega) as [q2|]; [|reflexivity].
+  destruct seqform; undist; reflexivity.
+Qed.
+
+Theorem bi_run_dist seqform max_iter x0 : length x0 = n ->
+  bi_run F zero one mul opp div eqb ltb mulA residA dops b tol seqform max_iter x0 = birun seqform max_iter x0.
+Proof.
+  intros Hx0.
+  assert (E0 : bi_init F residA dops b x0 = biinit x0).
+  { unfold KDefs.bi_init; cbn [o_inner o_norm2sq dist_ops seq_ops]. undist. reflexivity. }
+  unfold KDefs.bi_run, KDefs.bi_thr. rewrite E0. cbv zeta.
+  assert (Hrs : length (bi_r (biinit x0)) = n) by (apply residA_len; exact Hx0).
+  apply (run_ext _ _ (bistep seqform (bi_r (biinit x0))) _ _ bi_inv).
+  - intros; eapply bi_step_inv; eauto.
+  - reflexivity.
+  - intros s Hi _. apply bi_step_dist; assumption.
+  - apply bi_init_inv; exact Hx0.
+Qed.
+
+(* PCG exists only in distributed form; its kernels too are those of the assembled vectors *)
+Lemma pcg_step_dist s : pcg_inv s ->
+  pcg_step F zero one mul opp div eqb ltb mulA residA dops b tol prec ztol2 s = pcstep s.
+Proof.
+  intros (Hx & Hr & Hp & _).
+  unfold KDefs.pcg_step, KDefs.pcg_test, KDefs.pcg_binner; cbn [o_inner o_axpy o_scale o_norm2sq dist_ops seq_ops].
+  undist. destruct (ltb _ 0); [reflexivity|].
+  destruct (fdiv _ _) as [alpha|]; [|reflexivity].
+  destruct (Nat.eqb (S (pc_iter s) mod 8) 0); undist;
+    (destruct (fdiv _ _) as [rep|]; [|reflexivity]);
+    (match goal with |- context [if ?c then _ else _] => destruct c end; [reflexivity|]);
+    try reflexivity;
+    (destruct (fdiv _ _) as [beta|]; [|reflexivity]); undist; reflexivity.
+Qed.
+
+
+Lemma pcg_cont_facts s : pcg_cont F s = true -> pc_stop s = false /\ pc_indef s = false.
+Proof. unfold KDefs.pcg_cont. destruct (pc_stop s), (pc_indef s); simpl; intros H; try discriminate; auto. Qed.
+
+Theorem pcg_run_dist max_iter x0 : length x0 = n ->
+  pcg_run F zero one mul opp div eqb ltb mulA residA dops b tol prec ztol2 max_iter x0 = pcrun max_iter x0.
+Proof.
+  intros Hx0.
+  assert (E0 : pcg_init F residA dops b prec x0 = pcinit x0).
+  { unfold KDefs.pcg_init; cbn [o_inner dist_ops seq_ops]. undist. reflexivity. }
+  unfold KDefs.pcg_run. rewrite E0.
+  apply (run_ext _ _ pcstep _ _ pcg_inv).
+  - intros s s' Hi Hc Hs. destruct (pcg_cont_facts _ Hc). eapply pcg_step_inv; eauto.
+  - reflexivity.
+  - intros s Hi _. apply pcg_step_dist; assumption.
+  - apply pcg_init_inv; exact Hx0.
+Qed.
+
+(* ======== run-level statements ======== *)
+Theorem cg_run_spec max_iter x0 s' : length x0 = n ->
+  cgrun max_iter x0 = Done s' \/ cgrun max_iter x0 = Broke s' ->
+  exists K, (K <= max_iter)%nat /\ iter_n cgstep K (cginit x0) = Some s' /\
+    (forall j, (j < K)%nat -> exists sj, iter_n cgstep j (cginit x0) = Some sj /\ cgcont (cgthr x0) sj = true) /\
+    (cgrun max_iter x0 = Done s' -> K = max_iter \/ cgcont (cgthr x0) s' = false) /\
+    (cgrun max_iter x0 = Broke s' -> cgcont (cgthr x0) s' = true /\ cgstep s' = None) /\
+    (forall j, (j <= K)%nat -> exists sj, iter_n cgstep j (cginit x0) = Some sj /\
+        nth (cg_iter sj) (cg_hist s') 0 = true_res_sq (cg_x sj)) /\
+    last (cg_hist s') 0 = true_res_sq (cg_x s') /\ length (cg_hist s') = S (cg_iter s').
+Proof.
+  intros Hx0 [H|H]; unfold KDefs.cg_run in *.
+  - destruct (run_done_spec _ _ _ _ _ _ H) as (K & HK & Hit & Hall & Hend).
+    destruct (cg_history_true K x0 s' Hx0 Hit) as (H1 & H2 & H3).
+    exists K. split; [exact HK|]. split; [exact Hit|]. split; [exact Hall|]. split; [intros _; exact Hend|].
+    split; [intros E; rewrite H in E; discriminate|]. split; [exact H1|]. split; [exact H2|exact H3].
+  - destruct (run_broke_spec _ _ _ _ _ _ H) as (K & HK & Hit & Hc & Hs & Hall).
+    destruct (cg_history_true K x0 s' Hx0 Hit) as (H1 & H2 & H3).
+    exists K. split; [lia|]. split; [exact Hit|]. split; [exact Hall|]. split; [intros E; rewrite H in E; discriminate|].
+    split; [intros _; split; assumption|]. split; [exact H1|]. split; [exact H2|exact H3].
+Qed.
+
+Theorem bi_run_spec seqform max_iter x0 s' : length x0 = n ->
+  let rstar := bi_r (biinit x0) in
+  birun seqform max_iter x0 = Done s' \/ birun seqform max_iter x0 = Broke s' ->
+  exists K, (K <= max_iter)%nat /\ iter_n (bistep seqform rstar) K (biinit x0) = Some s' /\
+    (forall j, (j < K)%nat -> exists sj, iter_n (bistep seqform rstar) j (biinit x0) = Some sj /\ bicont (bithr x0) sj = true) /\
+    (birun seqform max_iter x0 = Done s' -> K = max_iter \/ bicont (bithr x0) s' = false) /\
+    (birun seqform max_iter x0 = Broke s' -> bicont (bithr x0) s' = true /\ bistep seqform rstar s' = None) /\
+    (forall j, (j <= K)%nat -> exists sj, iter_n (bistep seqform rstar) j (biinit x0) = Some sj /\
+        nth (bi_iter sj) (bi_hist s') 0 = true_res_nsq (bi_x sj)) /\
+    last (bi_hist s') 0 = true_res_nsq (bi_x s') /\ length (bi_hist s') = S (bi_iter s').
+Proof.
+  intros Hx0 rstar [H|H]; unfold KDefs.bi_run in *; cbv zeta in H; fold rstar in H.
+  - destruct (run_done_spec _ _ _ _ _ _ H) as (K & HK & Hit & Hall & Hend).
+    destruct (bi_history_true seqform K x0 s' Hx0 Hit) as (H1 & H2 & H3).
+    exists K. split; [exact HK|]. split; [exact Hit|]. split; [exact Hall|]. split; [intros _; exact Hend|].
+    split; [intros E; cbv zeta in E; fold rstar in E; rewrite H in E; discriminate|]. split; [exact H1|]. split; [exact H2|exact H3].
+  - destruct (run_broke_spec _ _ _ _ _ _ H) as (K & HK & Hit & Hc & Hs & Hall).
+    destruct (bi_history_true seqform K x0 s' Hx0 Hit) as (H1 & H2 & H3).
+    exists K. split; [lia|]. split; [exact Hit|]. split; [exact Hall|].
+    split; [intros E; cbv zeta in E; fold rstar in E; rewrite H in E; discriminate|].
+    split; [intros _; split; assumption|]. split; [exact H1|]. split; [exact H2|exact H3].
+Qed.
+
+(* PCG: the returned state satisfies the invariant: the last reported value is <r, M^-1 r>/<b, M^-1 b> of the returned
+   iterate (entry 0: <r0, M^-1 r0>), `break` was taken iff that value passes the test, and the loop stopped at the
+   first reported iterate (k >= 1) passing it or at the limit *)
+Theorem pcg_run_spec max_iter x0 s' : length x0 = n ->
+  pcrun max_iter x0 = Done s' \/ pcrun max_iter x0 = Broke s' ->
+  pcg_inv s' /\
+  exists K, (K <= max_iter)%nat /\ iter_n pcstep K (pcinit x0) = Some s' /\
+    (forall j, (j < K)%nat -> exists sj, iter_n pcstep j (pcinit x0) = Some sj /\ pcg_inv sj /\ pcg_cont F sj = true) /\
+    (pcrun max_iter x0 = Done s' -> K = max_iter \/ pcg_cont F s' = false).
+Proof.
+  intros Hx0 Hrun. unfold KDefs.pcg_run in *.
+  assert (Hstep : forall s s1, pcg_inv s -> pcg_cont F s = true -> pcstep s = Some s1 -> pcg_inv s1).
+  { intros s s1 Hi Hc Hs. destruct (pcg_cont_facts _ Hc). eapply pcg_step_inv; eauto. }
+  pose proof (run_invariant _ (pcg_cont F) pcstep pcg_inv Hstep max_iter _ (pcg_init_inv x0 Hx0)) as Hinv.
+  assert (Hpre : forall K s, iter_n pcstep K (pcinit x0) = Some s ->
+            (forall j, (j < K)%nat -> exists sj, iter_n pcstep j (pcinit x0) = Some sj /\ pcg_cont F sj = true) -> pcg_inv s).
+  { induction K as [|K IH]; intros s Hit Hall.
+    - simpl in Hit. inversion Hit; subst. apply pcg_init_inv; exact Hx0.
+    - destruct (iter_n_prefix _ pcstep _ _ _ K Hit ltac:(lia)) as (sK & H1 & H2).
+      replace (S K - K)%nat with 1%nat in H2 by lia. simpl in H2.
+      destruct (pcstep sK) as [s1|] eqn:Es; [|discriminate]. inversion H2; subst s1.
+      destruct (Hall K ltac:(lia)) as (sK' & H3 & H4). rewrite H1 in H3. inversion H3; subst sK'.
+      eapply Hstep; [|exact H4|exact Es]. apply IH; [exact H1|]. intros j Hj. apply Hall. lia. }
+  destruct Hrun as [H|H]; rewrite H in Hinv; (split; [exact Hinv|]).
+  - destruct (run_done_spec _ _ _ _ _ _ H) as (K & HK & Hit & Hall & Hend).
+    exists K. split; [exact HK|]. split; [exact Hit|]. split; [|intros _; exact Hend].
+    intros j Hj. destruct (Hall j Hj) as (sj & H1 & H2). exists sj. split; [exact H1|]. split; [|exact H2].
+    apply (Hpre j sj H1). intros i Hi. apply Hall. lia.
+  - destruct (run_broke_spec _ _ _ _ _ _ H) as (K & HK & Hit & Hc & Hs & Hall).
+    exists K. split; [lia|]. split; [exact Hit|]. split; [|intros E; rewrite H in E; discriminate].
+    intros j Hj. destruct (Hall j Hj) as (sj & H1 & H2). exists sj. split; [exact H1|]. split; [|exact H2].
+    apply (Hpre j sj H1). intros i Hi. apply Hall. lia.
+Qed.
+
+End SolverFacts.
+
+(* ---------------- extended values: norms and inner products of vectors with non-finite entries ---------------- *)
+Section XFacts.
+Variable F : Type.
+Variables (zero : F) (add mul div : F -> F -> F).
+Variable eqb ltb : F -> F -> bool.
+Variable tiny : F -> bool.
+Notation xadd := (xadd F add).
+Notation xmul := (xmul F mul).
+Notation xtiny := (xtiny F tiny).
+Notation xinner := (xinner F zero add mul).
+Notation xnorm2sq := (xnorm2sq F zero add mul tiny).
+Notation xallreduce := (xallreduce F zero add).
+Notation xdinner := (xdinner F zero add mul).
+Notation xdnorm2sq := (xdnorm2sq F zero add mul tiny).
+
+Lemma xadd_nan_r a : xadd a NaNv = NaNv.
+Proof. destruct a; reflexivity. Qed.
+
+Lemma fold_xadd_nan l : fold_left xadd l NaNv = NaNv.
+Proof. induction l as [|a l IH]; simpl; [reflexivity|exact IH]. Qed.
+
+Lemma fold_xadd_in l a : In NaNv l -> fold_left xadd l a = NaNv.
+Proof.
+  revert a; induction l as [|x l IH]; intros a H; simpl in *; [contradiction|].
+  destruct H as [->|H]; [rewrite xadd_nan_r; apply fold_xadd_nan|apply IH; exact H].
+Qed.
+
+Lemma map2_xmul_nan u v : length u = length v -> In NaNv u \/ In NaNv v -> In NaNv (map2 xmul u v).
+Proof.
+  revert v; induction u as [|a u IH]; intros [|c v] Hl H; simpl in *; try discriminate.
+  - destruct H; contradiction.
+  - destruct H as [[->|H]|[->|H]].
+    + left; reflexivity.
+    + right; apply IH; [lia|left; exact H].
+    + left; destruct a; reflexivity.
+    + right; apply IH; [lia|right; exact H].
+Qed.
+
+(* the inner product is non-finite whenever an entry of either vector is *)
+Theorem xinner_nan u v : length u = length v -> In NaNv u \/ In NaNv v -> xinner u v = NaNv.
+Proof. intros Hl H. unfold KDefs.xinner. apply fold_xadd_in. apply map2_xmul_nan; assumption. Qed.
+
+Lemma fold_xnorm_nan l : fold_left (fun acc x => if xtiny x then acc else xadd acc (xmul x x)) l NaNv = NaNv.
+Proof. induction l as [|a l IH]; simpl; [reflexivity|]. destruct (xtiny a); exact IH. Qed.
+
+(* the 2-norm (as fixed: `!(fabs(val) <= zero_tol)`) is non-finite whenever an entry is *)
+Theorem xnorm2sq_nan v : In NaNv v -> xnorm2sq v = NaNv.
+Proof.
+  unfold KDefs.xnorm2sq. generalize (@Fin F zero) as a.
+  induction v as [|x v IH]; intros a H; simpl in *; [contradiction|].
+  destruct H as [->|H]; [simpl; rewrite xadd_nan_r; apply fold_xnorm_nan|apply IH; exact H].
+Qed.
+
+(* on finite vectors the extended kernels are the field kernels *)
+Theorem xinner_fin u v : xinner (map Fin u) (map Fin v) = Fin (inner F zero add mul u v).
+Proof.
+  unfold KDefs.xinner, KDefs.inner. generalize zero as a.
+  revert v; induction u as [|x u IH]; intros [|y v] a; simpl; try reflexivity. apply IH.
+Qed.
+Theorem xnorm2sq_fin v : xnorm2sq (map Fin v) = Fin (norm2sq F zero add mul tiny v).
+Proof.
+  unfold KDefs.xnorm2sq, KDefs.norm2sq. generalize zero as a.
+  induction v as [|x v IH]; intros a; simpl; [reflexivity|]. destruct (tiny x); apply IH.
+Qed.
+
+(* distributed: Allreduce of the ranks' local results *)
+Lemma xallreduce_nan l : In NaNv l -> xallreduce l = NaNv.
+Proof.
+  induction l as [|a l IH]; simpl; intros H; [contradiction|].
+  destruct H as [->|H]; [reflexivity|rewrite IH by exact H; apply xadd_nan_r].
+Qed.
+
+Lemma in_split_by {A} parts (v : list A) x : length v = psum parts -> In x v ->
+  exists blk, In blk (split_by parts v) /\ In x blk.
+Proof.
+  revert v; induction parts as [|m ps IH]; intros v Hl Hin; simpl in *.
+  - destruct v; [contradiction|discriminate].
+  - rewrite <- (firstn_skipn m v) in Hin. apply in_app_or in Hin. destruct Hin as [H|H].
+    + exists (firstn m v). split; [left; reflexivity|exact H].
+    + destruct (IH (skipn m v)) as (blk & H1 & H2); [rewrite skipn_length; lia|exact H|].
+      exists blk. split; [right; exact H1|exact H2].
+Qed.
+
+Theorem xdnorm2sq_nan parts v : length v = psum parts -> In NaNv v -> xdnorm2sq parts v = NaNv.
+Proof.
+  intros Hl Hin. unfold KDefs.xdnorm2sq. apply xallreduce_nan.
+  destruct (in_split_by parts v NaNv Hl Hin) as (blk & H1 & H2).
+  apply in_map_iff. exists blk. split; [|exact H1].
+  destruct blk as [|x blk]; [contradiction|]. apply xnorm2sq_nan. exact H2.
+Qed.
+
+Lemma split_by_map {A B} (f : A -> B) parts v : split_by parts (map f v) = map (map f) (split_by parts v).
+Proof.
+  revert v; induction parts as [|m ps IH]; intros v; simpl; [reflexivity|].
+  rewrite firstn_map, skipn_map, IH. reflexivity.
+Qed.
+
+Theorem xdnorm2sq_fin parts v : xdnorm2sq parts (map Fin v) = Fin (dnorm2sq F zero add mul tiny parts v).
+Proof.
+  unfold KDefs.xdnorm2sq, KDefs.dnorm2sq, allreduce_sum. rewrite split_by_map.
+  induction (split_by parts v) as [|blk l IH]; simpl; [reflexivity|].
+  rewrite IH. destruct blk as [|x blk]; [reflexivity|].
+  change (map Fin (x :: blk)) with (@Fin F x :: map Fin blk) at 1.
+  cbv beta iota. change (@Fin F x :: map Fin blk) with (map (@Fin F) (x :: blk)). rewrite xnorm2sq_fin. reflexivity.
+Qed.
+
+Lemma map2_in_nan parts u v :
+  length u = psum parts -> length v = psum parts -> In NaNv u \/ In NaNv v ->
+  In NaNv (map2 (fun ul vl => match ul with [] => Fin zero | _ => xinner ul vl end) (split_by parts u) (split_by parts v)).
+Proof.
+  revert u v; induction parts as [|m ps IH]; intros u v Hu Hv H; simpl in *.
+  - destruct u; [|discriminate]. destruct v; [|discriminate]. destruct H; contradiction.
+  - assert (Hl : length (firstn m u) = length (firstn m v)) by (rewrite !firstn_length; lia).
+    assert (D : (In NaNv (firstn m u) \/ In NaNv (firstn m v)) \/ (In NaNv (skipn m u) \/ In NaNv (skipn m v))).
+    { destruct H as [H|H]; [rewrite <- (firstn_skipn m u) in H|rewrite <- (firstn_skipn m v) in H];
+        apply in_app_or in H; tauto. }
+    destruct D as [D|D].
+    + left. destruct (firstn m u) as [|x0 fu] eqn:E.
+      * destruct (firstn m v); [destruct D; contradiction|discriminate].
+      * apply xinner_nan; assumption.
+    + right. apply IH; [rewrite skipn_length; lia|rewrite skipn_length; lia|exact D].
+Qed.
+
+Theorem xdinner_nan parts u v : length u = psum parts -> length v = psum parts ->
+  In NaNv u \/ In NaNv v -> xdinner parts u v = NaNv.
+Proof. intros Hu Hv H. unfold KDefs.xdinner. apply xallreduce_nan. apply map2_in_nan; assumption. Qed.
+
+(* a non-finite norm never satisfies `norm_r > tol`: the solver loops leave at once *)
+Lemma xgt_nan t : xgt F ltb NaNv t = false.
+Proof. reflexivity. Qed.
+
+End XFacts.
